@@ -33,12 +33,12 @@ def _binding(data: bytes) -> t.Optional[tuple]:
             # ECDH key, and the field width decide the shared secret; the generator g of the DH key blob does not (it is not
             # used when decrypting), so a change there may legitimately be accepted
             magic, kl = ki[:4], int.from_bytes(ki[4:8], "little")
-            if magic == b"DHPB" and len(ki) == 8 + 3 * kl:
+            if magic == b"DHPB" and 0 < kl and len(ki) >= 8 + 3 * kl:          # octets after the three fields are not part of the key
                 kb = ("DH", kl, int.from_bytes(ki[8 : 8 + kl], "big"), int.from_bytes(ki[8 + 2 * kl : 8 + 3 * kl], "big"))
-            elif magic[:3] == b"ECK" and len(ki) == 8 + 2 * kl:
-                kb = (magic, kl, int.from_bytes(ki[8 : 8 + kl], "big"), int.from_bytes(ki[8 + kl :], "big"))
+            elif magic[:3] == b"ECK" and 0 < kl and len(ki) >= 8 + 2 * kl:
+                kb = (magic, kl, int.from_bytes(ki[8 : 8 + kl], "big"), int.from_bytes(ki[8 + kl : 8 + 2 * kl], "big"))
             else:
-                return None
+                kb = None       # not recognisable as a key blob: no claim about key_info itself (the flag below still counts)
         return (sid, str(k.root_key_identifier), int(k.l0), int(k.l1), int(k.l2), bool(k.is_public_key), kb)
     except Exception:  # noqa
         return None
@@ -97,7 +97,7 @@ def run(ctx: Ctx) -> int:
         bound = False
         if res == "plain_ok":
             b1, b2 = _binding(tg.blob), _binding(data)
-            bound = b1 is not None and b2 is not None and b1 != b2
+            bound = b1 is not None and b2 is not None and (b1[:-1] != b2[:-1] or (b1[-1] is not None and b2[-1] is not None and b1[-1] != b2[-1]))
         rows.append({"id": len(rows), "kind": "tamper", "layout": tg.layout, "mode": tg.mode, "hash": tg.h, "fields": fields, "kinds": kinds, "what": what,
                      "res": res, "exc": exc, "allowed": allowed, "sealed": sealed, "bound": bound})
 
